@@ -46,10 +46,10 @@ def check(ctx):
         r11_4_loop(ctx, m, L)
         r11_2(ctx, m, L)
         r11_5_group(ctx, m, L)
-    r11_3(ctx, m)
-    r11_6(ctx, m)
-    r11_4_worker(ctx, m)
-    r11_5_batches(ctx, m)
+    ctx.run(r11_3, m)
+    ctx.run(r11_6, m)
+    ctx.run(r11_4_worker, m)
+    ctx.run(r11_5_batches, m)
     ctx.not_decided += [
         "multiprocessing.Queue delivers every item of a producer exactly once and in FIFO order (trusted)",
         "operating-system scheduling itself; a worker dying while holding the queue's internal lock (inside CPython)",
@@ -58,8 +58,8 @@ def check(ctx):
     # mechanisms this property rests on (see shared.py): a change there is reported here as well
     from . import shared as _sh
 
-    _sh.gaf_reader(ctx)
-    _sh.cli_layer(ctx, "gaftools.cli.realign")
+    ctx.run(_sh.gaf_reader)
+    ctx.run(_sh.cli_layer, "gaftools.cli.realign")
 
 
 # ---------------------------------------------------------------------------------------------
